@@ -32,6 +32,9 @@ package interp
 //@ onstore getopts.argidx [nonneg] value >= 0
 //@ onstore getopts.runeidx [nonneg] value >= 0
 //@ onstore Runner.optState [nonneg] value.argidx >= 0 && value.runeidx >= 0
+// written out (rather than left to the automatic proposal of loop invariants, whose survival depends on solver timing):
+//@ loop 15 invariant [index-in-range] 0 <= i && i < len(val)
+//@ loop 26 invariant [delim-non-empty] len(delim) > 0
 
 //@ func getopts.next
 //@ props C28
